@@ -170,3 +170,33 @@ func ZZ_C10_undecodable() {
 func zzVersion10() uint32 {
 	return []uint32{0, 1, 2, 255, 256, 257, 0x10000, 0xffffffff}[vrt.Choice("version", 8)]
 }
+
+// ZZ_C10_ordered_root_long: lists long enough for the index key to leave the one-byte compact
+// mode (64 values and more), one symbolic byte per value.
+func ZZ_C10_ordered_root_long() {
+	n := 63 + vrt.Choice("n_minus_63", 4)
+	var values [][]byte
+	for i := 0; i < n; i++ {
+		values = append(values, vrt.Bytes("v"+string(rune('0'+i/10))+string(rune('0'+i%10)), 1))
+	}
+	data := scale.MustMarshal(values)
+	mem := &zzMem10{buf: make([]byte, 1024)}
+	copy(mem.buf[64:], data)
+	ctx := zzCtx10{Context: context.Background(), rt: &runtime.Context{Allocator: &zzAlloc10{next: 900}}}
+	mod := &zzMod10{mem: mem}
+	ptr := ext_trie_blake2_256_ordered_root_version_2(ctx, mod, uint64(len(data))<<32|64, 0)
+	vrt.Assert("known_version_returns_root", ptr != 0)
+	ref := inmemory_trie.NewEmptyTrie()
+	for i, v := range values {
+		key := []byte{byte(i << 2)}
+		if i >= 64 {
+			x := uint16(i)<<2 | 1
+			key = []byte{byte(x), byte(x >> 8)}
+		}
+		vrt.Assert("ref_put_ok", ref.Put(key, v) == nil)
+	}
+	want := ref.MustHash()
+	got, ok := mod.mem.Read(ptr, 32)
+	vrt.Assert("ordered_root_equals_trie_root", ok && vrt.BytesEq(got, want[:]))
+	vrt.Reach("end")
+}
